@@ -1341,8 +1341,9 @@ def _smooth_script(c, idx, product):
     vals = [k for k in vals if k != "reset_half"]
     kinds = ["set_freqs_inner", vals[(5 * r + 1) % len(vals)]]
     oneoff = ()
-    if product <= 1.0e7:
+    if product <= 4.0e6:
         kinds.append(SMOOTH_SAME[r % (len(SMOOTH_SAME) - 1)])
+    if product <= 1.2e6:
         oneoff = ("band", "freqs_band")
         kinds += [oneoff[r % 2], vals[(5 * r + 4) % len(vals)], SMOOTH_LEN[r % 2]]
     return _script(c, kinds, oneoff)
@@ -1381,8 +1382,8 @@ enum_clause(CLAUSES, "mid-range-smooth", lambda tier, shard, nshards: _deal(_smo
                  "(b) Fourier frequencies x targets laddered from 1e5 to 3e7 (8 log-bins, thorough 20 to 4e7, + products just above source "
                  "literals), record 2 000..300 000 samples (thorough 1 000 000) and 10..5000 targets by a hash-chosen split; history = the "
                  "second and the second-to-last target moved, everything else (count, end points) kept - through the setter, the deprecated "
-                 "setter or gen_smooth_fa_spectrum(freqs) in rotation -, an in-place mutator of the values, [<= 1e7: another same-count change "
-                 "(all new through one of the three routes, range, by-range, in-place scaling, same end points)], [<= 2.5e6: a one-off gen_/generate_smooth_fa_spectrum(band=20|57.5|80 [, freqs]), a mutator, another number of targets]; "
+                 "setter or gen_smooth_fa_spectrum(freqs) in rotation -, an in-place mutator of the values, [<= 4e6: another same-count change "
+                 "(all new through one of the three routes, range, by-range, in-place scaling, same end points)], [<= 1.2e6: a one-off gen_/generate_smooth_fa_spectrum(band=20|57.5|80 [, freqs]), a mutator, another number of targets]; "
                  "AccSignal / Signal alternate (Signal above 1e7); all observables re-read after every step",
             oracle="differential against a fresh object after every step (after a one-off band: a fresh object given the same call), 1e-10 of "
                    "magnitude, second and third read bit for bit; two targets anchored to the Konno-Ohmachi reference of C07",
